@@ -15,8 +15,10 @@ type Lit struct {
 	Alt     []interface{} // further acceptable values
 }
 
-func isDig(c byte) bool  { return c >= '0' && c <= '9' }
-func isWordCh(c byte) bool { return c == '_' || isDig(c) || c >= 'a' && c <= 'z' || c >= 'A' && c <= 'Z' }
+func isDig(c byte) bool { return c >= '0' && c <= '9' }
+func isWordCh(c byte) bool {
+	return c == '_' || isDig(c) || c >= 'a' && c <= 'z' || c >= 'A' && c <= 'Z'
+}
 
 func ModelInteger(d []byte, off int) Lit {
 	j := off
